@@ -130,6 +130,9 @@ func (rec *Record) TryCompress() {
 		return
 	}
 	body := rec.Payload.Body
+	if len(body) == 0 {
+		return // nothing to compress; CCompress would index src[0]
+	}
 	try := body
 	if len(body) > TRY_COMPRESS_SIZE {
 		try = try[:TRY_COMPRESS_SIZE]
